@@ -111,6 +111,10 @@ func body(c config, ctx *hk.Ctx) {
 	infos := make([]*interceptor.StreamInfo, 3)
 	for s := 0; s < 3; s++ {
 		info := &interceptor.StreamInfo{SSRC: uint32(0x5000 + s)}
+		if s == 0 {
+			// repair packets of the stream travel on its writer with SSRCs of their own
+			info.SSRCRetransmission, info.SSRCForwardErrorCorrection = 0x5E00, 0x5F00
+		}
 		infos[s] = info
 		if ids[s] != 0 {
 			info.RTPHeaderExtensions = []interceptor.RTPHeaderExtension{{URI: "urn:other", ID: 15}, {URI: uri, ID: ids[s]}}
@@ -207,7 +211,8 @@ func body(c config, ctx *hk.Ctx) {
 		icpt.UnbindLocalStream(infos[2])
 		icpt.UnbindLocalStream(infos[1])
 		for k := 0; k < 2; k++ {
-			h := rtp.Header{Version: 2, PayloadType: 96, SequenceNumber: uint16(9000 + k), SSRC: 0x5000}
+			// ... an RTX and a FEC packet of the stream (every packet on a stream that negotiated the extension leaves with it)
+			h := rtp.Header{Version: 2, PayloadType: 96, SequenceNumber: uint16(9000 + k), SSRC: []uint32{0x5E00, 0x5F00}[k]}
 			if _, err := ws[0].Write(&h, []byte{9}, nil); err != nil {
 				ctx.Fail("C15:write-error", "write after the other streams were unbound: %v", err)
 				return
@@ -291,7 +296,7 @@ func body(c config, ctx *hk.Ctx) {
 		e := g.hdr.GetExtension(uint8(ids[0]))
 		want := (start + len(nums) + k) % 65536
 		if len(e) != 2 || int(e[0])<<8|int(e[1]) != want {
-			ctx.Fail("C15:run-restarted-after-unbind", "after the other streams were unbound the remaining stream's packet %d carries %x, the run continues with %d", k, e, want)
+			ctx.Fail("C15:run-restarted-after-unbind", "after the other streams were unbound the remaining stream's packet %d (SSRC %#x: its RTX / FEC SSRC) carries %x, the run continues with %d", k, g.hdr.SSRC, e, want)
 			return
 		}
 	}
